@@ -29,6 +29,14 @@ IKeys == { <<1, 1>>, <<1, 2>>, <<1>>, <<1, 1, 1>>, <<2>>, <<1, 16>> }
 IVals == { Rep(25, 1), Rep(26, 2), Rep(27, 3), Rep(28, 4), <<>>, <<7>>, Rep(10, 6) }
 IPrefixes == { <<1>>, <<1, 1>>, <<>> }
 
+(* alphabet "nested": value-less branches on three nesting levels (keys only at the leaves), limits that run out inside  *)
+(* the last grand-child of the cleared region (seed C02d)                                                               *)
+NKeys == { <<17, 17>>, <<17, 33>>, <<17, 34, 17>>, <<17, 34, 33>>, <<17, 34, 34>>, <<17, 34, 33, 1>>, <<34>> }
+NVals == { <<1>>, <<2>> }
+NPrefixes == { <<17>>, <<17, 34>>, <<17, 32>>, <<>>, <<17, 34, 32>>, <<17, 34, 33>> }
+NLimits == 0..6
+ClearKinds == {"Put", "Delete", "ClearPrefix", "ClearPrefixLimit"}
+
 (* tiny constants for exhaustive model checking of the specification       *)
 MKeys == { <<>>, <<16>>, <<18>>, <<18, 1>>, <<31>> }
 MVals == { <<1>>, Rep(33, 9) }
